@@ -470,9 +470,12 @@ class DemoStorage(ConflictResolvingStorage):
                 if last > self.changes.lastTransaction():
                     k.pop('tid', None)
                     a = (ZODB.utils.newTid(last),) + a[1:]
-            self.changes.tpc_begin(transaction, *a, **k)
             self._stored_oids = set()
             del self._resolved[:]
+        # (Not under the storage lock, which is the changes storage's own:
+        # its tpc_begin waits for its commit lock, and a file storage that
+        # is being packed takes the storage lock while it holds that.)
+        self.changes.tpc_begin(transaction, *a, **k)
 
     def tpc_vote(self, *a, **k):
         if self.changes.tpc_vote(*a, **k):
